@@ -117,6 +117,7 @@ pub fn profile(name: &str) -> Option<Profile> {
             gen_cfg: GenCfg {
                 w_maintenance: 26,
                 w_removal: 14,
+                snapshot_faults: true,
                 ..GenCfg::default()
             },
             rebuild_checks: true,
